@@ -479,11 +479,18 @@ def r6_3(run):
     ok = False
     for e in dense:
         v = e.value
-        if v[0] == "call" and v[1] == ("x", "builtins.tuple") and v[2] and v[2][0][0] == "op" and v[2][0][1] == "++":
-            first, rest = v[2][0][2], v[2][0][3]
+        if v[0] == "call" and v[1] == ("x", "builtins.tuple") and len(v[2]) == 1:
+            v = v[2][0]
+        # (keys, *sums) in whatever spelling: tuple([k] + [..]), (k, *[..]), [k] + [..]
+        first, rest = None, None
+        if v[0] == "op" and v[1] == "++" and v[2][0] == "list" and len(v[2][1]) == 1:
+            first, rest = v[2][1][0], v[3]
+        elif v[0] in ("tuple", "list") and len(v[1]) >= 2:
+            first, rest = v[1][0], ("tuple", tuple(v[1][1:]))
+        if first is not None:
             K = [x for x in walk(first) if x[0] == "proj" and x[2] == 0]
             S = [x for x in walk(rest) if x[0] == "proj" and x[2] == 1]
-            ok = first[0] == "list" and len(first[1]) == 1 and bool(K) and bool(S) and tkey(K[0][1]) == tkey(S[0][1])
+            ok = bool(K) and bool(S) and tkey(K[0][1]) == tkey(S[0][1])
     run.ob("numba|returns-indices-then-sums", ok,
            "the dense path returns (group keys, then one summed array per value array) of one kernel call", w)
     # numpy path: one permutation for keys and values, then unique keys of the sorted keys
